@@ -46,7 +46,7 @@
 (define-fun evIsInt ((k Int)) Bool (and (<= 9 k) (<= k 19)))
 ; representation invariant of one parser state: the argument-width sub-states are only entered for
 ; additional information 24..27 (every other value must have been refused when the head was read)
-(define-fun cborStateInv ((ma Int) (mi Int)) Bool (=> (or (= ma 0) (= ma 32) (= ma 3)) (and (<= 24 mi) (<= mi 27))))
+(define-fun cborStateInv ((ma Int) (mi Int)) Bool (and (=> (or (= ma 0) (= ma 32) (= ma 3)) (and (<= 24 mi) (<= mi 27))) (=> (or (= ma 64) (= ma 68)) (or (= mi 1) (= mi 2)))))
 ; states in which bytes of a partially received token may sit in the collect buffer
 (define-fun cborCollecting ((ma Int) (mi Int)) Bool
   (or (and (or (= ma 0) (= ma 32) (= ma 3)) (<= 25 mi) (<= mi 27)) (= ma 250) (= ma 251) (= ma 96) (= ma 168)))
@@ -61,3 +61,17 @@
     (or (= mt 6) (and (<= 28 ai) (<= ai 30))
         (and (or (= mt 2) (= mt 3) (= mt 0) (= mt 1)) (= ai 31))
         (and (= mt 7) (not (or (= ai 20) (= ai 21) (= ai 22) (= ai 23) (= ai 26) (= ai 27)))))))
+; which state may sit directly below state x on the parser's stack (structure of the state stack)
+(define-fun cborContOrTop ((m Int)) Bool (or (= m 128) (= m 160) (= m 129) (= m 161) (= m 2)))
+; states of a value in progress (they sit at a value position: above a container or at top level)
+(define-fun cborValueState ((m Int)) Bool
+  (or (= m 0) (= m 32) (= m 64) (= m 68) (= m 96) (= m 100) (= m 250) (= m 251) (= m 128) (= m 160) (= m 129) (= m 161)))
+(define-fun cborBelowOK ((x Int) (y Int)) Bool
+  (ite (= x 132) (= y 128) (ite (= x 133) (= y 129) (ite (= x 164) (= y 160) (ite (= x 165) (= y 161)
+  (ite (or (= x 169) (= x 168) (= x 172)) (or (= y 160) (= y 161))
+  (ite (= x 3) (or (= y 68) (= y 100) (= y 132) (= y 164) (= y 172))
+  (ite (cborValueState x) (cborContOrTop y) true))))))))
+; length facts per state: payload states have a positive remaining length, definite start states a non-negative one
+(define-fun cborLenOK ((ma Int) (lc Int)) Bool
+  (and (=> (or (= ma 96) (= ma 168) (= ma 64)) (> lc 0))
+       (=> (or (= ma 68) (= ma 100) (= ma 172) (= ma 132) (= ma 164)) (>= lc 0))))
